@@ -3,7 +3,8 @@
    the absorbed-key list matters only through the absorbed keys still held on
    the input, the absorbing trigger only while there is such a key, the repeat
    trigger never). *)
-From TM Require Import Base Mapper Monitors Trace MapperInv MapperProps MapperRefire.
+From TM Require Import Base Mapper Monitors Trace MapperInv MapperProps MapperRefire Loop LoopEnv LoopMonitors
+                       LoopSpec LoopLemmas LoopSends LoopTablet LoopTimer LoopProps.
 
 (* mresp L s h2 = the responses (output events AND repeat instruction) of every
    step of h2 from mapper state s; inputs are key events (well-formed or not)
@@ -59,6 +60,30 @@ Theorem C06_no_memory :
     mresp is_action L s' h = mresp is_action L s h.
 Proof. intros a L s s' h H. apply mresp_aeq. apply for_layout_ok_wf. exact H. Qed.
 Print Assumptions C06_no_memory.
+
+(* ---- the tablet-mode reset as the event loop performs it (model TM.Loop of
+   do_remapping_loop_one_device; vocabulary of TM.LoopSpec, see C12.v).  In EVERY
+   configuration of EVERY run of the loop (any answer script), the loop's mapper
+   answers EVERY future input sequence exactly like a mapper created fresh at
+   the last tablet event that has seen only the key events read since then ... *)
+Theorem C06_loop_mapper_is_fresh_after_tablet_event :
+  forall (is_action : key -> bool) (L : layout),
+    for_layout_ok L = true ->
+    forall (rs : list resp) (cs : list call) (o : outcome) (k : nat) (x : conf),
+    Loop.run is_action L rs = (cs, o) -> conf_at is_action L rs k = Some x ->
+    forall h, mresp is_action L (l_mapper (c_state x)) h
+              = mresp is_action L (state_of is_action L (since_tab false [] (firstn k (combine cs rs)))) h.
+Proof. exact fresh_after_tablet_event. Qed.
+Print Assumptions C06_loop_mapper_is_fresh_after_tablet_event.
+
+(* ... and no repeat timer survives it: after any tablet event the loop is idle. *)
+Theorem C06_loop_no_repeat_survives_tablet_event :
+  forall (is_action : key -> bool) (L : layout) (rs : list resp) (k : nat) (x y : conf)
+         (rest : list device) (on : bool),
+    conf_at is_action L rs k = Some x -> conf_at is_action L rs (S k) = Some y ->
+    c_point x = PTab rest -> c_resp x = RTab (NOne on) -> l_wr (c_state y) = Idle.
+Proof. exact cancel_on_tablet_event. Qed.
+Print Assumptions C06_loop_no_repeat_survives_tablet_event.
 
 (* Non-vacuity: an absorbing layout; h1 leaves residue in the state (a stale
    absorbed key and trigger) although everything is released, and the
